@@ -9,6 +9,10 @@ S = {s['id']: s for s in SPECS}
 
 def run(rep, ctx):
     g = ctx.g
+    from .c01 import run_N_writer
+    run_N_writer(rep, g, ['write::unit::', 'write::abbrev::', 'write::str::', 'write::writer::', 'write::relocate::', 'write::section::', 'write::dwarf::', 'write::endian_vec::'])
+    from ..dedup import run_F_eq
+    run_F_eq(rep, g)
     run_specs(rep, ctx, 'C11')
     forms = extract(g, S['w_attr_form'])
     k1_pairing(rep, g, 'K1-attr', S['w_attr_write'], [S['attr_parse']], 'DW_FORM_', strip_opcode=False, consts_from=forms)
